@@ -93,3 +93,63 @@ func isFreshAlloc(base ssa.Value) bool {
 	}
 	return false
 }
+
+// vstore is a store to a struct field as seen from a function: a direct Store instruction, or a call of a setter — a
+// function of the same package that, on every path, stores one of its parameters (or a constant) into that field of its
+// receiver. `at` is where the store happens from the function's point of view (the Store or the call); `val` the value.
+type vstore struct {
+	at  ssa.Instruction
+	val ssa.Value
+}
+
+func (c *Ctx) fieldStoresIn(fn *ssa.Function, f *types.Var) []vstore {
+	var out []vstore
+	eachInstr(fn, func(r instrRef) {
+		switch x := r.I.(type) {
+		case *ssa.Store:
+			if fa, ok := x.Addr.(*ssa.FieldAddr); ok && fieldAddrVar(fa) == f {
+				out = append(out, vstore{x, x.Val})
+			}
+		case *ssa.Call:
+			callee := x.Common().StaticCallee()
+			if callee == nil || callee == fn || callee.Pkg != fn.Pkg || len(callee.Blocks) == 0 {
+				return
+			}
+			if pi, cv, ok := c.setterOf(callee, f); ok {
+				if cv != nil {
+					out = append(out, vstore{x, cv})
+				} else if pi < len(x.Call.Args) {
+					out = append(out, vstore{x, x.Call.Args[pi]})
+				}
+			}
+		}
+	})
+	return out
+}
+
+// setterOf: callee is a plain setter of field f: straight-line (a single block), it stores parameter #pi (or the
+// constant cv) into f of its receiver and does nothing else with the struct's lock.
+func (c *Ctx) setterOf(callee *ssa.Function, f *types.Var) (pi int, cv ssa.Value, ok bool) {
+	if len(callee.Blocks) != 1 || len(callee.Params) == 0 {
+		return 0, nil, false
+	}
+	for _, in := range callee.Blocks[0].Instrs {
+		st, isStore := in.(*ssa.Store)
+		if !isStore {
+			continue
+		}
+		fa, isFA := st.Addr.(*ssa.FieldAddr)
+		if !isFA || fieldAddrVar(fa) != f || fa.X != ssa.Value(callee.Params[0]) {
+			continue
+		}
+		if k, isConst := st.Val.(*ssa.Const); isConst {
+			return 0, k, true
+		}
+		for i, p := range callee.Params {
+			if st.Val == ssa.Value(p) {
+				return i, nil, true
+			}
+		}
+	}
+	return 0, nil, false
+}
